@@ -95,6 +95,16 @@ func cgen(args []string) {
 			bodies = append(bodies, mg.TermRandom(r, 1+r.Intn(3)))
 		}
 	}
+	nScope := 250
+	if *tier == "thorough" {
+		nScope = 2500
+	}
+	{
+		r := rand.New(rand.NewSource(*seed + 29))
+		for i := 0; i < nScope; i++ {
+			bodies = append(bodies, mg.ScopeRandom(r, 1+r.Intn(3)))
+		}
+	}
 	r := rand.New(rand.NewSource(*seed))
 	for i := 0; i < nRandom; i++ {
 		o := mg.GenOpts{MaxDepth: 1 + r.Intn(3), MaxLen: 2 + r.Intn(3), Switch: r.Intn(3) != 0, Panics: r.Intn(4) == 0}
@@ -131,7 +141,7 @@ func cgen(args []string) {
 	pf.Close()
 	rf.Close()
 	st := map[string]any{"programs": n, "corpus": nCorpus, "small_exhaustive": len(small), "small_depth": depth,
-		"small_width": width, "random": nRandom, "termination_family": nTerm}
+		"small_width": width, "random": nRandom, "termination_family": nTerm, "scope_family": nScope}
 	b, _ := json.MarshalIndent(st, "", " ")
 	os.WriteFile(filepath.Join(*out, "gen_stats.json"), b, 0o644)
 }
@@ -147,6 +157,9 @@ type runResult struct {
 	RunC   string `json:"run_c,omitempty"` // trace of the compiled generator
 	RunR   string `json:"run_r,omitempty"` // trace of the source on the reference coroutine
 	RunT   string `json:"run_t,omitempty"` // trace of the unoptimised intermediate output
+	ScopeS string `json:"scope_s"`         // K9: go/types scope report of the source function
+	ScopeT string `json:"scope_t"`         // ... of the intermediate output
+	ScopeF string `json:"scope_f"`         // ... of the optimised output
 }
 
 // crun: compile the programs with the real compiler (batched, panics isolated by bisection).
@@ -244,7 +257,8 @@ func crun(args []string) {
 		for _, p := range ps {
 			mp = append(mp, &mg.Prog{Name: p.Name, Body: p.Body})
 		}
-		os.WriteFile(filepath.Join(src, "gen.go"), []byte(mg.RenderCo(id, "scratch/vm", style, mp)), 0o644)
+		coSrc := mg.RenderCo(id, "scratch/vm", style, mp)
+		os.WriteFile(filepath.Join(src, "gen.go"), []byte(coSrc), 0o644)
 		cmd := exec.Command(self, "compile-one", "-src", src, "-dst", dst)
 		cmd.Dir = mod
 		cmd.Env = append(os.Environ(), "VERIF_KEEP_TMP="+keep)
@@ -286,6 +300,9 @@ func crun(args []string) {
 		finSrc, _ := os.ReadFile(filepath.Join(dst, "gen.go"))
 		tmpF, err1 := mg.ParseFile(string(tmpSrc), "G")
 		finF, err2 := mg.ParseFile(string(finSrc), "G")
+		scS, _ := mg.ScopeReport(coSrc, "G")
+		scT, _ := mg.ScopeReport(string(tmpSrc), "G")
+		scF, _ := mg.ScopeReport(string(finSrc), "G")
 		mu.Lock()
 		ob := okBatch{id: id, progs: mp, style: style}
 		for _, p := range ps {
@@ -300,6 +317,7 @@ func crun(args []string) {
 			} else {
 				rr.Tmp = (&mg.Prog{Body: tmpF[p.Name]}).Sexp().String()
 				rr.Final = (&mg.Prog{Body: finF[p.Name]}).Sexp().String()
+				rr.ScopeS, rr.ScopeT, rr.ScopeF = scS[p.Name], scT[p.Name], scF[p.Name]
 			}
 			results = append(results, rr)
 		}
